@@ -40,14 +40,18 @@ type wfaults struct {
 	kick      chan struct{} // closed to fail the Recv in flight
 	failRecv  bool
 	failWatch int
+	// clean: the stream in flight ends without a status (the server side handler returned by itself: the client sees a
+	// bare io.EOF), as when a server drains its handlers before a restart or a proxy completes the stream
+	clean bool
 }
 
-func (w *wfaults) arm(n int) {
+func (w *wfaults) arm(n int, clean bool) {
 	w.mu.Lock()
 	defer w.mu.Unlock()
 
 	w.failRecv = true
 	w.failWatch = n
+	w.clean = clean
 
 	select {
 	case <-w.kick:
@@ -89,6 +93,15 @@ func (s *shimStream) CloseSend() error             { return nil }
 func (s *shimStream) Recv() (*v1alpha1.WatchResponse, error) {
 	fail := func() (*v1alpha1.WatchResponse, error) {
 		s.cancel() // the transport is gone: the server side handler ends
+
+		s.wf.mu.Lock()
+		clean := s.wf.clean
+		s.wf.clean = false
+		s.wf.mu.Unlock()
+
+		if clean {
+			return nil, io.EOF
+		}
 
 		return nil, status.Error(codes.Unavailable, "injected transport failure")
 	}
@@ -200,7 +213,9 @@ func runRemote(t *testing.T, tr *vh.Trace, tid string, g Group, beh []Cmd, cooki
 			case "fault":
 				if w := r.ws[c.W]; w != nil {
 					r.emit(Line{Ev: "fault", W: w.w, N: c.N})
-					r.wfs[w.w].arm(c.N)
+					// every third fault ends the stream cleanly instead of breaking it
+					r.nfaults++
+					r.wfs[w.w].arm(c.N, r.nfaults%3 == 0)
 					synctest.Wait()
 					// enough virtual time for the re-establishment attempts (0.5 s, 0.75 s, 1.1 s, ...)
 					time.Sleep(8 * time.Second)
